@@ -87,6 +87,12 @@ func VerifC04Closure() {
 		cbody = blk(asg(pick("cl.target"), lit()), cbody)
 	}
 	body := []node.Type{asg(pick("local"), lit()), asg("g", fn(cbody, cpar))}
+	if vrt.Bool("through-identity") {
+		// the function value passes through a call that did not define it and comes back while
+		// its defining function is still running: it is still the same closure
+		p.steps("define", false, asg("ident", fn(nm("w"), "w")))
+		body = append(body, asg("g", call("ident", nm("g"))))
+	}
 	if vrt.Bool("call-before-update") {
 		body = append(body, asg("k", call("g", lit())))
 	}
@@ -105,7 +111,7 @@ func VerifC04Closure() {
 			tag = "updated-after-stack-growth/"
 		}
 	}
-	how := vrt.Choice("leaves-as", 4)
+	how := vrt.Choice("leaves-as", 5)
 	switch how {
 	case 0:
 		body = append(body, nm("g")) // returned directly
@@ -113,6 +119,9 @@ func VerifC04Closure() {
 		body = append(body, node.Return{Target: nm("g")})
 	case 2:
 		body = append(body, node.List{Elems: []node.Type{nm("g"), lit()}}) // inside an array
+	case 4:
+		// inside a nested array, after a sub-array without functions
+		body = append(body, node.List{Elems: []node.Type{node.List{Elems: []node.Type{lit()}}, node.List{Elems: []node.Type{lit(), nm("g")}}}})
 	default:
 		body = append(body, call("g", lit())) // only its result leaves
 	}
@@ -131,8 +140,49 @@ func VerifC04Closure() {
 		p.steps("between", false, asg("pad", fn(blk(asg("a", lit()), asg("b", lit()), asg("c", lit()), bin("+", nm("a"), nm("b"))))), call("pad"))
 		p.Step(asg("t", node.IndexAt{Ary: nm("h"), At: node.Int(0)}), true, tag+"take-from-array")
 		p.Step(call("t", lit()), true, tag+"closure-from-array-call")
+	case 4:
+		p.steps("between", false, asg("pad", fn(blk(asg("a", lit()), asg("b", lit()), asg("c", lit()), bin("+", nm("a"), nm("b"))))), call("pad"))
+		p.Step(asg("t", node.IndexAt{Ary: node.IndexAt{Ary: nm("h"), At: node.Int(1)}, At: node.Int(1)}), true, tag+"take-from-nested-array")
+		p.Step(call("t", lit()), true, tag+"closure-from-nested-array-call")
 	default:
 		p.Step(nm("h"), true, tag+"result")
+	}
+	p.observe("end")
+	vrt.Cover("done")
+}
+
+// VerifC04Yielded: a closure defined in a generator reaches the loop by yield, is kept, and is
+// called after the generator has finished or was abandoned and after another loop has run (which
+// recycles the generator's context within one statement).
+func VerifC04Yielded() {
+	p := NewPair()
+	p.steps("setup", false, asg("x", lit()), asg("y", lit()))
+	v := pick("captured")
+	gbody := []node.Type{asg(v, lit()), asg("g", fn(bin("+", nm(v), nm("q")), "q")), yld(nm("g"))}
+	if vrt.Bool("update-and-yield-again") {
+		gbody = append(gbody, asg(v, bin("+", nm("n"), lit())), yld(nm("g")))
+	}
+	if vrt.Bool("update-after-last-yield") {
+		gbody = append(gbody, asg(v, lit()))
+	}
+	gen := asg("gen", fn(blk(gbody...), "n"))
+	vrt.Note("generator", Src(gen))
+	p.steps("define", false, gen,
+		asg("other", fn(forl("k", call("fromto", ilit(0), nm("n")), blk(asg("zz", lit()), yld(bin("+", nm("zz"), nm("k"))))), "n")))
+	var body node.Type = asg("s", nm("h"))
+	if vrt.Bool("call-in-body") {
+		body = blk(asg("r1", call("h", lit())), asg("s", nm("h")))
+	}
+	if vrt.Bool("abandon") {
+		body = blk(body, ret(ilit(0)))
+	}
+	loops := blk(asg("s", ilit(0)), forl("h", call("gen", lit()), body), forl("u", call("other", ilit(2)), nm("u")), call("s", lit()))
+	if vrt.Bool("inside-function") {
+		p.steps("define", false, asg("f", fn(loops)))
+		p.Step(call("f"), true, "kept-closure-after-recycling")
+	} else {
+		p.Step(loops, true, "kept-closure-after-recycling")
+		p.Step(call("s", lit()), true, "kept-closure-next-statement")
 	}
 	p.observe("end")
 	vrt.Cover("done")
